@@ -1,11 +1,69 @@
 """C13 — data channel lifecycle: faithful open, forward-only states, exact bufferedAmount."""
+from __future__ import annotations
+
+import collections
+import random
+import re
+import struct
+
+from harness.check import Component, case_key
 from harness import sctp_check as S
+from harness import sctp_world as W
 
 LEAN_TARGETS = ["Aiortc.Props.C13"]
-DRIVERS = ["Sctp"]
-RULE = ("programs of create/send/close/threshold operations issued by both sides at arbitrary steps of a recorded fault "
-        "schedule over two REAL endpoints (Unicode labels, all reliability settings, negotiated and explicit ids), healed; "
-        "public state (readyState, bufferedAmount, id) and every event compared with the Lean automaton at every step")
+DRIVERS = ["Sctp", "Dcep"]
+MANIFEST = {
+    "technique": "Lean 4 invariant / refinement proofs over the executable endpoint automaton (Model/Sctp/Endpoint.lean: "
+                 "RTCSctpTransport + RTCDataChannel as `step : Ep -> clock -> Input -> Ep x outputs`), proved with a small "
+                 "weakest-precondition calculus for the handler monad (Lemmas/SctpWp.lean) + step-by-step trace correspondence of "
+                 "the compiled automaton with two REAL endpoints under recorded fault schedules + function-level differential run of "
+                 "the DCEP/UTF-8 helpers + implementation-side oracles",
+    "text": "Props/C13.lean proves, for EVERY endpoint state satisfying the (proved inductive) invariant, every clock value and every "
+            "input - i.e. all programs of create/send/close/threshold calls at any time, all datagrams (arbitrary bytes, so all loss/"
+            "duplication/reordering schedules), all timers and tasks: (a) dcep_roundtrip: the OPEN message of _data_channel_open parsed "
+            "by the OPEN branch of _data_channel_receive returns exactly label, protocol, ordered, maxRetransmits, maxPacketLifeTime for "
+            "all valid-UTF-8 labels/protocols < 65536 bytes; utf8_exact: the decoder model accepts exactly the concatenations of UTF-8 "
+            "encoded Unicode scalar values (Table 3-6/3-7); open_announces: a received OPEN that decodes to p on a free stream id creates "
+            "one channel object with parameters p and that id and emits `datachannel` for it; (b) ids_disjoint / auto_id_parity / "
+            "auto_ids_never_collide: the id chosen by _data_channel_flush has the parity of the role (even with is_server, odd otherwise), "
+            "is not registered, ids never change once set, and ids of different roles differ; (c) ready_forward(_run): every step keeps every "
+            "channel object, never decreases readyState (0 connecting < 1 open < 2 closing < 3 closed), never changes "
+            "label/protocol/ordered/reliability/negotiated; events_on_change + at_most_one_event: open/close/datachannel are emitted only on "
+            "the corresponding transition and at most once per channel object over every run from the initial state; (d) buffered_exact: "
+            "bufferedAmount of every non-closed channel = user-data bytes queued for it in _data_channel_queue, preserved by every step in "
+            "which no exception escapes, hence never negative and 0 when nothing is queued; evLow_exact: _addBufferedAmount emits "
+            "bufferedamountlow iff the amount goes from > threshold to <= threshold; (e) closed_all: _set_state(CLOSED) closes every channel "
+            "in _data_channels or _data_channel_queue and empties both; (f) negotiated_exact_id: negotiated=True registers exactly the "
+            "given id or raises ValueError leaving the state unchanged.",
+    "note": "End-to-end clauses that need the peer and the network to make progress (exactly one `datachannel` event at the PEER, close() "
+            "closing BOTH ends and freeing the id, drained => 0) are liveness statements over the two-endpoint system: they are covered by "
+            "the trace correspondence + oracles on healed runs, not by a Lean theorem; the per-endpoint halves (open_announces, "
+            "negotiated_exact_id, closed_all, buffered_exact) are proved. Known finding C13-negotiated-close-before-established stays.",
+    "design_ref": "DESIGN.md §2 C13, §2.0",
+}
+ASSUMPTIONS = [
+    "dcep_roundtrip: at most one of maxRetransmits / maxPacketLifeTime is set (RTCPeerConnection.createDataChannel rejects both) and the value is < 2^32 (struct 'L')",
+    "buffered_exact is claimed for steps in which no exception escapes a handler (NoCrash): after an exception inside _data_channel_flush the popped "
+    "message is neither sent nor subtracted; oracle_no_crash checks on every real run that no handler raises",
+    "buffered_exact says nothing about channels that are already closed (close() before the association is up drops their queue entries without touching bufferedAmount)",
+    "closed_all assumes the keys of _data_channels are distinct (a dict in the real code)",
+    "LifeInv (readyState in 0..3, _data_channel_id = role parity once started) and BufInv hold initially (lifeInv_init, bufInv_init) and are preserved (ready_forward, buffered_exact)",
+    "evLow_exact is stated for _addBufferedAmount, the only emitter of bufferedamountlow in the model; that send() only adds and flush only subtracts is in buffered_send_flush",
+    "'is_server' of the two sides differ (ICE roles of a pair differ): hypothesis of auto_ids_never_collide",
+]
+TRUSTED_EXTRA = [
+    "The endpoint automaton Model/Sctp/Endpoint.lean is tied to rtcsctptransport.py / rtcdatachannel.py by trace correspondence (compiled model replayed on the "
+    "inputs of two real endpoints, outputs and public state compared at every step), not by proof",
+    "Labels/protocols are byte strings in the model (their UTF-8 encoding); `utf8Valid` models CPython's strict UTF-8 decoder (checked by the `dcep` component "
+    "on boundary code points, surrogates, overlong forms, truncations and random bytes); `encodeCp` is a transcription of Unicode Table 3-6",
+    "asyncio scheduling: every handler runs atomically (checked: a suspended handler is reported as harness assumption violation); ensure_future'd coroutines are the `task` inputs",
+    "pyee event delivery: `silent` models 'no listener can be registered yet / listeners removed', events are compared as recorded by listeners attached at creation/announcement",
+]
+RULE = ("programs of create/send/close/threshold/stop operations issued by both sides at arbitrary steps of a recorded fault "
+        "schedule over two REAL endpoints (creates before start, close right after create, thresholds incl. invalid values, Unicode labels of all "
+        "UTF-8 lengths, all reliability settings, negotiated and explicit ids, abort in the middle), healed; public state (readyState, "
+        "bufferedAmount, id) and every event compared with the Lean automaton at every step; plus DCEP/UTF-8 helper functions on "
+        "valid, boundary and malformed byte strings")
 
 
 WITNESS_NEGOTIATED = {
@@ -15,26 +73,615 @@ WITNESS_NEGOTIATED = {
             ["create", "A", {"id": 200, "label": "neg", "negotiated": True, "ordered": True}],
             ["close", "B", 0]],
 }
+# regression seeds for the mutations listed in notes/C13.md
+WITNESS_EARLY_STOP = {
+    "tagA": 3, "tagB": 4, "tsnA": 10, "tsnB": 20, "profile": "life2", "wrap": False,
+    "ops": [["create", "A", {"label": "early"}], ["start", "A"], ["start", "B"], ["stop", "A"]],
+}
+WITNESS_THRESHOLD = {
+    "tagA": 5, "tagB": 6, "tsnA": 1000, "tsnB": 2000, "profile": "life2", "wrap": False,
+    "ops": [["start", "A"], ["start", "B"], ["deliver", "B", 0], ["deliver", "A", 0], ["deliver", "B", 0], ["deliver", "A", 0],
+            ["create", "A", {"label": "thr"}], ["task", "A"], ["task", "A"], ["deliver", "B", 0], ["deliver", "A", 0],
+            ["deliver", "A", 0], ["task", "A"], ["task", "B"],
+            ["threshold", "A", 0, 10], ["send", "A", 0, "s", 10, 1], ["send", "A", 0, "b", 1, 2], ["task", "A"], ["task", "A"],
+            ["threshold", "A", 0, 0], ["send", "A", 0, "s", 3, 3], ["task", "A"]],
+}
+
+WITNESS_OPEN_AFTER_CLOSE = {
+    "tagA": 2471846464, "tagB": 1186512605, "tsnA": 1634978810, "tsnB": 671750508, "profile": "life2", "wrap": False,
+    "ops": [["start", "A"], ["start", "B"], ["deliver", "B", 0], ["deliver", "A", 0], ["deliver", "B", 0], ["deliver", "A", 0],
+            ["create", "B", {"id": 22, "label": "id", "ordered": True}], ["task", "B"], ["drop", "A", 0], ["close", "B", 0]],
+}
+# a duplicated COOKIE ECHO reaches the server while a negotiated channel is closing (fix 4ffefd0)
+WITNESS_COOKIE_DUP = {
+    "tagA": 11, "tagB": 12, "tsnA": 500, "tsnB": 600, "profile": "life2", "wrap": False,
+    "ops": [["start", "A"], ["start", "B"], ["deliver", "B", 0], ["deliver", "A", 0], ["dup", "B", 0], ["deliver", "B", 0],
+            ["create", "B", {"id": 10, "label": "neg", "negotiated": True, "ordered": True}], ["close", "B", 0],
+            ["deliver", "B", 0], ["task", "B"], ["task", "B"]],
+}
+
+UNI_LABELS = S.LABELS + ["\x00", "\x7f\x80", "߿ࠀ", "퟿", "￿\U00010000", "\U0010ffff", "é", "שלום", "a" * 300,
+                         "é" * 200]
+
+
+def p_unicode(rng, w, name):
+    return dict(label=rng.choice(UNI_LABELS), protocol=rng.choice(["", "π", "🙂", "x" * 100, "\U0010ffff"]),
+                ordered=rng.random() < 0.5,
+                **rng.choice([{}, {}, {"maxRetransmits": rng.choice([0, 1, 2**16])}, {"maxPacketLifeTime": rng.choice([1, 2001])}]))
+
+
+def p_bad_negotiated(rng, w, name):
+    return dict(label="neg", negotiated=True, id=rng.choice([None, -1, 65535, 65534, 10, 11]), ordered=True)
+
+
+LIFE2 = dict(S.PROFILES["lifecycle"],
+             chan_params=[S.p_reliable, S.p_rexmit, S.p_negotiated, S.p_explicit_id, p_unicode, p_unicode, p_bad_negotiated],
+             channels=7)
+THRESHOLDS = [0, 0, 1, 5, 10, 100, 1200, 3000, -1, 2**32, 2**32 - 1]
+
+
+def lifecycle_ops(rng, case, n_steps, profile):
+    """Like sctp_world.random_ops, plus: channels created before start(), close right after create, thresholds,
+    stop() in the middle."""
+    w = W.World(dict(case, ops=[]))
+    ops = []
+
+    def do(op):
+        if w.apply(op):
+            ops.append(op)
+            return True
+        return False
+
+    def create(name):
+        ep = w.ep[name]
+        n0 = len(ep.channels)
+        if do(["create", name, rng.choice(profile["chan_params"])(rng, w, name)]) and len(ep.channels) > n0:
+            i = len(ep.channels) - 1
+            x = rng.random()
+            if x < 0.35:
+                do(["threshold", name, i, rng.choice(THRESHOLDS)])
+            elif x < 0.50:
+                do(["close", name, i])
+
+    for _ in range(rng.choice([0, 0, 1, 2, 3])):
+        create(rng.choice("AB"))
+    do(["start", "A"])
+    if rng.random() < 0.8:
+        do(["start", "B"])
+    stop_at = rng.randrange(n_steps) if rng.random() < 0.35 else None
+    loss, dup, reorder = profile.get("loss", 0.1), profile.get("dup", 0.03), profile.get("reorder", 0.2)
+    for step in range(n_steps):
+        r = rng.random()
+        name = rng.choice("AB")
+        ep = w.ep[name]
+        if step == stop_at:
+            do(["stop", name])
+            continue
+        if r < 0.45:
+            q = w.net[name]
+            if not q:
+                name = "B" if name == "A" else "A"
+                q = w.net[name]
+            if q:
+                i = rng.randrange(len(q)) if rng.random() < reorder else 0
+                x = rng.random()
+                if x < loss:
+                    do(["drop", name, i])
+                elif x < loss + dup:
+                    do(["dup", name, i])
+                else:
+                    do(["deliver", name, i])
+                continue
+        if r < 0.70:
+            if ep.tasks:
+                do(["task", name])
+                continue
+        if r < 0.76:
+            arm = ep.armed()
+            if arm and rng.random() < profile.get("fire", 0.5):
+                do(["fire", name, rng.choice(arm).name])
+                continue
+        if r < 0.78:
+            do(["start", name])
+            continue
+        if r < 0.84 and len(ep.channels) < profile.get("channels", 3):
+            create(name)
+            continue
+        if r < 0.95 and ep.channels:
+            i = rng.randrange(len(ep.channels))
+            w.salt += 1
+            do(["send", name, i, rng.choice("sb"), rng.choice(profile.get("sizes", [0, 1, 10, 100, 1200, 3000])), w.salt])
+            continue
+        if r < 0.965 and ep.channels:
+            do(["threshold", name, rng.randrange(len(ep.channels)), rng.choice(THRESHOLDS)])
+            continue
+        if r < 0.98 and ep.channels:
+            do(["close", name, rng.randrange(len(ep.channels))])
+            continue
+        if r < 0.99:
+            do(["clock", rng.choice([1, 10, 100, 1000, 3000, 70000])])
+            continue
+        if ep.tasks:
+            do(["task", name])
+    return ops
+
+
+def _gen13(args):
+    seed, profile_name, steps, wrap = args
+    if profile_name != "life2":
+        return S.make_case(random.Random(seed), profile_name, steps, wrap)
+    rng = random.Random(seed)
+    if wrap:
+        tsnA, tsnB = (2**32 - rng.randrange(1, 40)) % 2**32, (2**32 - rng.randrange(1, 40)) % 2**32
+    else:
+        tsnA, tsnB = rng.randrange(2**32), rng.randrange(2**32)
+    case = dict(tagA=rng.randrange(1, 2**32), tagB=rng.randrange(1, 2**32), tsnA=tsnA, tsnB=tsnB)
+    return dict(case, ops=lifecycle_ops(rng, case, steps, LIFE2), profile="life2", wrap=wrap)
+
+
+class Run13(S.Run):
+    """S.Run plus the full per-step inputs/events/public state of the recorded part of the schedule."""
+
+    def __init__(self, case, heal=True):
+        super().__init__(case, heal=heal)
+        w = W.World(case)
+        order = {"n": 0}
+        orig = w._after
+
+        def after(name, inp, exc):
+            orig(name, inp, exc)
+            order["n"] += 1
+            w.trace[name][-1]["g"] = order["n"]
+
+        w._after = after
+        w.run()
+        # global step at which channel object #i of a side first existed / first was closing or closed
+        self.g_created = {n: {} for n in "AB"}
+        self.g_closing = {n: {} for n in "AB"}
+        for n in "AB":
+            for st in w.trace[n]:
+                for i, (cid, ready, _b) in enumerate(st["public"]["channels"]):
+                    self.g_created[n].setdefault(i, st["g"])
+                    if ready in ("closing", "closed"):
+                        self.g_closing[n].setdefault(i, st["g"])
+        self.full = {n: [(st["in"], [list(e) if isinstance(e, tuple) else e for e in st["events"]], st["public"], st["exc"])
+                         for st in w.trace[n]] for n in "AB"}
+
+
+def _run13(case):
+    try:
+        return Run13(case, heal=case.get("heal", True))
+    except Exception as exc:  # harness failure: keep visible
+        import traceback
+        return "HARNESS-EXC " + type(exc).__name__ + ": " + str(exc)[:300] + " " + traceback.format_exc()[-400:]
+
+
+def _nbytes(msg):
+    n = len(msg.encode("utf8")) if isinstance(msg, str) else len(msg)
+    return n if n else 1
+
+
+def _created_after_close(run, side, j, closer, i):
+    """channel #j at `side` is negotiated and was created after channel #i at `closer` had started closing"""
+    d = run.channels[side][j]
+    gc = run.g_created[side].get(j)
+    gx = run.g_closing[closer].get(i)
+    return bool(d["negotiated"]) and gc is not None and gx is not None and gx < gc
+
+
+def oracle_c13_local(case, run):
+    """sctp_check.oracle_c13 with one refinement: a negotiated end that the application created only AFTER the other side had
+    closed its end is a legitimate reuse of a freed id, not a half-closed channel."""
+    for n in "AB":
+        other = "B" if n == "A" else "A"
+        nch = len(run.channels[n])
+        # (3) readyState only moves forward; at most one open / close event
+        last = {}
+        for k, pub in enumerate(run.publics[n]):
+            for i, (cid, ready, buffered) in enumerate(pub["channels"]):
+                if i in last and S.ORDER[ready] < S.ORDER[last[i]]:
+                    return (f"endpoint {n} channel #{i} id={cid}: readyState went backwards "
+                            f"{last[i]} -> {ready} at step {k} ({run.inputs[n][k]})")
+                last[i] = ready
+                # (5) never negative
+                if buffered < 0:
+                    return f"endpoint {n} channel #{i} id={cid}: bufferedAmount={buffered} < 0 at step {k}"
+        cnt = collections.Counter((ev[0], ev[1]) for _, ev in run.events[n] if ev[0] in ("open", "close"))
+        for (kind, i), v in cnt.items():
+            if v > 1:
+                return f"endpoint {n} channel #{i}: {v} '{kind}' events"
+        # (1) datachannel events mirror the opener's parameters, at most one per id at a time
+        seen_ids = collections.Counter()
+        for _, ev in run.events[n]:
+            if ev[0] != "chan":
+                continue
+            _, i, cid, label, proto, ordered, rtx, life = ev
+            cands = [c for c in run.channels[other] if c["id"] == cid and not c["negotiated"]]
+            if not cands:
+                return f"endpoint {n}: datachannel event for id={cid} but the peer has no such channel"
+            if not any(c["label"] == label and c["protocol"] == proto and c["ordered"] == ordered
+                       and c["rtx"] == rtx and c["life"] == life for c in cands):
+                c = cands[0]
+                return (f"endpoint {n}: datachannel event id={cid} announces label={label!r} protocol={proto!r} "
+                        f"ordered={ordered} maxRetransmits={rtx} maxPacketLifeTime={life}, but the peer opened "
+                        f"label={c['label']!r} protocol={c['protocol']!r} ordered={c['ordered']} "
+                        f"maxRetransmits={c['rtx']} maxPacketLifeTime={c['life']}")
+        # (2) automatically chosen ids: odd on the client (A), even on the server (B)
+        for i, c in enumerate(run.channels[n]):
+            if c["id"] is None or c["negotiated"]:
+                continue
+            explicit = c["label"] == "id"
+            created_here = not any(ev[0] == "chan" and ev[1] == i for _, ev in run.events[n])
+            if created_here and not explicit and (c["id"] % 2) != (1 if n == "A" else 0):
+                return f"endpoint {n}: automatically chosen id {c['id']} has the wrong parity"
+        # two live local channels never share an id
+        live = collections.Counter(c["id"] for c in run.channels[n] if c["id"] is not None and c["ready"] != "closed")
+        for cid, v in live.items():
+            if v > 1:
+                return f"endpoint {n}: {v} channels that are not closed share id {cid}"
+        # (4) association over => every channel closed
+        if run.state[n] == "closed":
+            for i, c in enumerate(run.channels[n]):
+                if c["ready"] != "closed":
+                    return f"endpoint {n}: association is closed but channel #{i} id={c['id']} is {c['ready']}"
+    # (4) close() closes both ends once the network has healed
+    if run.healed and run.state["A"] == "connected" and run.state["B"] == "connected":
+        for n in "AB":
+            other = "B" if n == "A" else "A"
+            for i, c in enumerate(run.channels[n]):
+                if c["ready"] == "closing":
+                    return f"endpoint {n} channel #{i} id={c['id']} still 'closing' after the network healed"
+                if c["ready"] == "closed" and c["id"] is not None:
+                    for j, d in enumerate(run.channels[other]):
+                        if d["id"] == c["id"] and d["ready"] in ("open", "closing") and not (S._reused(run, other, j, n, i) or _created_after_close(run, other, j, n, i)):
+                            tag = ""
+                            if c["negotiated"] and c.get("closed_state") in ("new", "connecting"):
+                                tag = " [negotiated channel closed before the association was established]"
+                            return (f"channel id={c['id']} is closed at {n} but still {d['ready']} at {other} after the "
+                                    f"network healed" + tag)
+        # (5) drained => bufferedAmount 0
+        for n in "AB":
+            for i, c in enumerate(run.channels[n]):
+                if c["buffered"] != 0 and c["ready"] == "open":
+                    return f"endpoint {n} channel #{i} id={c['id']}: bufferedAmount={c['buffered']} after draining"
+    return None
+
+
+
+def oracle_c13_extra(case, run):
+    """bufferedAmount bookkeeping, bufferedamountlow on exactly the downward crossings, one datachannel event."""
+    for n in "AB":
+        thr = collections.defaultdict(int)
+        prev = None
+        for k, (inp, events, pub, exc) in enumerate(run.full[n]):
+            chans = pub["channels"]
+            before = prev["channels"] if prev is not None else []
+            lows = collections.Counter(ev[1] for ev in events if ev[0] == "low")
+            for i, (cid, ready, buffered) in enumerate(chans):
+                if i >= len(before):
+                    if buffered != 0:
+                        return f"endpoint {n} channel #{i}: bufferedAmount={buffered} at creation (step {k})"
+                    continue
+                _, ready0, b0 = before[i]
+                if inp[0] == "send" and inp[1] == i:
+                    want = _nbytes(W.message(inp[2], inp[3], inp[4])) if ready0 == "open" else 0
+                    if buffered - b0 != want:
+                        return (f"endpoint {n} channel #{i} id={cid}: send() of {want} byte(s) in state {ready0} changed "
+                                f"bufferedAmount by {buffered - b0} (step {k})")
+                elif buffered > b0:
+                    return f"endpoint {n} channel #{i} id={cid}: bufferedAmount grew {b0} -> {buffered} without send() (step {k}, {inp[0]})"
+                if ready != "closed" and ready0 != "closed":
+                    want_low = 1 if (b0 > thr[i] and buffered <= thr[i]) else 0
+                    if lows.get(i, 0) != want_low:
+                        return (f"endpoint {n} channel #{i} id={cid}: bufferedAmount {b0} -> {buffered} with threshold {thr[i]} "
+                                f"but {lows.get(i, 0)} bufferedamountlow event(s) (step {k}, {inp[0]})")
+            if inp[0] == "threshold" and exc is None and 0 <= inp[2] <= 4294967295:
+                thr[inp[1]] = inp[2]
+            # close() frees the id for reuse: creating a channel with an id whose previous holders are all closed succeeds
+            if inp[0] == "create" and exc == "ValueError" and prev is not None and prev["state"] != "closed":
+                want = inp[1].get("id")
+                if isinstance(want, int) and 0 <= want <= 65534:
+                    holders = [c for c in before if c[0] == want]
+                    if holders and all(c[1] == "closed" for c in holders):
+                        return (f"endpoint {n}: creating a channel with id {want} raised ValueError although every channel that "
+                                f"held this id is closed (step {k}): close() did not free the id")
+            prev = pub
+    # exactly one datachannel event at the peer for a channel that is open on both... (healed runs only)
+    for n in "AB":
+        other = "B" if n == "A" else "A"
+        announced_here = {ev[1] for _, ev in run.events[n] if ev[0] == "chan"}
+        per_id = collections.Counter(ev[2] for _, ev in run.events[other] if ev[0] == "chan")
+        for i, c in enumerate(run.channels[n]):
+            if i in announced_here or c["negotiated"] or c["id"] is None:
+                continue
+            ids_here = sum(1 for d in run.channels[n] if d["id"] == c["id"])
+            ids_there = sum(1 for d in run.channels[other] if d["id"] == c["id"])
+            if ids_here != 1 or ids_there > 1:
+                continue
+            if per_id[c["id"]] > 1:
+                return f"endpoint {other}: {per_id[c['id']]} datachannel events for id={c['id']}"
+            if (run.healed and run.state["A"] == "connected" and run.state["B"] == "connected" and c["ready"] == "open"
+                    and per_id[c["id"]] != 1):
+                return (f"channel id={c['id']} opened by {n} is open after the network healed but {other} saw "
+                        f"{per_id[c['id']]} datachannel events")
+    return None
 
 
 class World(S.WorldComponent):
     name = "world"
     prop = "C13"
-    theorems = ["dcep_roundtrip", "ids_disjoint", "ready_forward", "buffered_exact"]
-    mix = [("lifecycle", False, 4), ("lifecycle", True, 1), ("mixed-pr", False, 1)]
-    quick = (36, 260)
-    thorough = (300, 500)
-    oracles = [S.oracle_no_crash, S.oracle_c13, S.oracle_c01, S.oracle_c06]
+    theorems = ["dcep_roundtrip", "open_announces", "ids_disjoint", "auto_id_parity", "ready_forward", "events_on_change",
+                "at_most_one_event", "buffered_exact", "evLow_exact", "closed_all", "negotiated_exact_id"]
+    mix = [("life2", False, 4), ("lifecycle", False, 2), ("life2", True, 1), ("mixed-pr", False, 1)]
+    quick = (32, 220)
+    thorough = (400, 450)
+    oracles = [S.oracle_no_crash, oracle_c13_local, oracle_c13_extra, S.oracle_c01, S.oracle_c06]
 
     def corpus(self):
-        return [WITNESS_NEGOTIATED] + super().corpus()
+        return [WITNESS_NEGOTIATED, WITNESS_OPEN_AFTER_CLOSE, WITNESS_EARLY_STOP, WITNESS_THRESHOLD, WITNESS_COOKIE_DUP] + super().corpus()
+
+    def cases(self, rng, tier):
+        n, steps = self.quick if tier == "quick" else self.thorough
+        weighted = [m for m in self.mix for _ in range(m[2])]
+        args = []
+        for i in range(n):
+            prof, wrap, _ = weighted[i % len(weighted)]
+            args.append((rng.getrandbits(48), prof, steps if i % 3 else max(60, steps // 3), wrap))
+        return S.pool().map(_gen13, args)
+
+    def impl_many(self, cases):
+        results = S.pool().map(_run13, cases, chunksize=1)
+        outs = []
+        for c, r in zip(cases, results):
+            if isinstance(r, str):
+                outs.append(r)
+            else:
+                self.runs[case_key(c)] = r
+                outs.append(r.expected)
+        return outs
+
+    def impl(self, case):
+        r = _run13(case)
+        if isinstance(r, str):
+            return r
+        self.runs[case_key(case)] = r
+        return r.expected
+
+    def label(self, case, impl_out):
+        r = self.runs.get(case_key(case))
+        feats = list(r.features) if r is not None else ["?"]
+        kinds = {op[0] for op in case["ops"]}
+        for k in ("stop", "threshold"):
+            if k in kinds:
+                feats.append(k)
+        if r is not None and any(ev[0] == "low" for n in "AB" for _, ev in r.events[n]):
+            feats.append("low")
+        if case["ops"] and case["ops"][0][0] == "create":
+            feats.append("early-create")
+        return f"{case.get('profile')}{'-wrap' if case.get('wrap') else ''}[{','.join(feats)}]"
+
+    def nontrivial(self, case, impl_out):
+        r = self.runs.get(case_key(case))
+        return r is not None and any(r.channels[n] for n in "AB")
+
+
+# ---------------------------------------------------------------------------------------------
+# DCEP / UTF-8 helper functions against the real code
+# ---------------------------------------------------------------------------------------------
+
+def _enc(cp):
+    return chr(cp).encode("utf8", "surrogatepass")
+
+
+BOUNDARY_CPS = [0, 0x41, 0x7F, 0x80, 0x7FF, 0x800, 0xFFF, 0x1000, 0xCFFF, 0xD000, 0xD7FF, 0xE000, 0xFFFF, 0x10000, 0x3FFFF,
+                0x40000, 0xFFFFF, 0x100000, 0x10FFFF]
+MALFORMED = [b"\x80", b"\xbf", b"\xc0\x80", b"\xc1\xbf", b"\xc2", b"\xc2\x7f", b"\xc2\xc0", b"\xdf\xbf", b"\xe0\x80\x80", b"\xe0\x9f\xbf",
+             b"\xe0\xa0\x80", b"\xe0\xa0", b"\xed\x9f\xbf", b"\xed\xa0\x80", b"\xed\xbf\xbf", b"\xee\x80\x80", b"\xef\xbf\xbf",
+             b"\xf0\x80\x80\x80", b"\xf0\x8f\xbf\xbf", b"\xf0\x90\x80\x80", b"\xf0\x90\x80", b"\xf4\x8f\xbf\xbf", b"\xf4\x90\x80\x80",
+             b"\xf5\x80\x80\x80", b"\xf8\x88\x80\x80\x80", b"\xff", b"\xfe", b"\xe2\x82", b"\xe2\x28\xa1", b"\xf0\x28\x8c\xbc",
+             b"\xf0\x90\x28\xbc", b"\xf0\x28\x8c\x28"]
+
+
+def _open_msg(ct, prio, rel, label, proto, ll=None, pl=None):
+    return struct.pack("!BBHLHH", 3, ct, prio, rel, len(label) if ll is None else ll, len(proto) if pl is None else pl) + label + proto
+
+
+class Dcep(Component):
+    name = "dcep"
+    theorems = ["dcep_roundtrip", "utf8_exact", "open_announces"]
+
+    def corpus(self):
+        out = [{"k": "utf8", "d": b.hex()} for b in MALFORMED]
+        out += [{"k": "utf8", "d": _enc(cp).hex()} for cp in BOUNDARY_CPS + [0xD800, 0xDFFF]]
+        out += [{"k": "cp", "n": cp} for cp in BOUNDARY_CPS]
+        out += [{"k": "decode", "d": _open_msg(0x80 | 1, 0, 5, "héllo→".encode(), "prötø".encode()).hex()},
+                {"k": "decode", "d": _open_msg(2, 7, 2**32 - 1, b"", b"").hex()},
+                {"k": "decode", "d": "03"}, {"k": "decode", "d": ""}, {"k": "decode", "d": "02"},
+                {"k": "encode", "label": "héllo→", "protocol": "prötø", "ordered": False, "rtx": 3, "life": None},
+                {"k": "encode", "label": "a" * 65535, "protocol": "", "ordered": True, "rtx": None, "life": None},
+                {"k": "encode", "label": "a" * 65536, "protocol": "", "ordered": True, "rtx": None, "life": None},
+                {"k": "encode", "label": "é" * 32768, "protocol": "", "ordered": True, "rtx": None, "life": None},
+                {"k": "encode", "label": "", "protocol": "é" * 32767 + "a", "ordered": True, "rtx": None, "life": 2**32 - 1},
+                {"k": "encode", "label": "x", "protocol": "", "ordered": True, "rtx": 2**32, "life": None}]
+        return out
+
+    def _rand_text(self, rng, n):
+        return "".join(chr(rng.choice(BOUNDARY_CPS + [0x61, 0xE9, 0x2192, 0x1F642])) for _ in range(n))
+
+    def cases(self, rng, tier):
+        n = 300 if tier == "quick" else 4000
+        out = []
+        for _ in range(n):
+            x = rng.random()
+            if x < 0.08:
+                cp = rng.randrange(0x110000)
+                out.append({"k": "cp", "n": cp if not 0xD800 <= cp <= 0xDFFF else 0xE000})
+            elif x < 0.4:
+                b = bytearray()
+                for _ in range(rng.randrange(0, 6)):
+                    y = rng.random()
+                    if y < 0.5:
+                        b += _enc(rng.choice(BOUNDARY_CPS) if rng.random() < 0.6 else rng.randrange(0x110000))
+                    elif y < 0.8:
+                        b += rng.choice(MALFORMED)
+                    else:
+                        b += bytes(rng.randrange(256) for _ in range(rng.randrange(1, 4)))
+                if b and rng.random() < 0.3:
+                    j = rng.randrange(len(b))
+                    b[j] ^= 1 << rng.randrange(8)
+                if b and rng.random() < 0.2:
+                    b = b[:rng.randrange(len(b))]
+                out.append({"k": "utf8", "d": bytes(b).hex()})
+            elif x < 0.75:
+                label = self._rand_text(rng, rng.randrange(0, 5)).encode("utf8", "surrogatepass") if rng.random() < 0.8 else rng.choice(MALFORMED)
+                proto = self._rand_text(rng, rng.randrange(0, 3)).encode("utf8", "surrogatepass") if rng.random() < 0.8 else rng.choice(MALFORMED)
+                ct = rng.choice([0, 1, 2, 3, 0x80, 0x81, 0x82, 0x83, 0x40, 0x7f, 0xff, rng.randrange(256)])
+                rel = rng.choice([0, 1, 65535, 2**31, 2**32 - 1, rng.randrange(2**32)])
+                ll = rng.choice([None, None, None, 0, len(label) + 1, max(0, len(label) - 1), 65535])
+                pl = rng.choice([None, None, None, 0, len(proto) + 1, max(0, len(proto) - 1), 65535])
+                m = bytearray(_open_msg(ct, rng.choice([0, 1, 65535]), rel, label, proto, ll, pl))
+                y = rng.random()
+                if y < 0.25:
+                    m = m[:rng.choice([0, 1, 2, 4, 8, 10, 11, 12, 13, len(m) - 1 if m else 0])]
+                elif y < 0.35:
+                    m[0] = rng.choice([0, 2, 3, 4, 255])
+                elif y < 0.45:
+                    m += bytes(rng.randrange(256) for _ in range(rng.randrange(1, 5)))
+                out.append({"k": "decode", "d": bytes(m).hex()})
+            else:
+                rel = rng.choice([None, None, ("rtx", rng.choice([0, 1, 3, 65535, 2**32 - 1])), ("life", rng.choice([0, 1, 2001, 2**32 - 1]))])
+                text = lambda k: self._rand_text(rng, k).replace("퟿", "퟿")
+                out.append({"k": "encode", "label": "".join(c for c in text(rng.randrange(0, 6)) if not 0xD800 <= ord(c) <= 0xDFFF),
+                            "protocol": "".join(c for c in text(rng.randrange(0, 3)) if not 0xD800 <= ord(c) <= 0xDFFF),
+                            "ordered": rng.random() < 0.5,
+                            "rtx": rel[1] if rel and rel[0] == "rtx" else None, "life": rel[1] if rel and rel[0] == "life" else None})
+        return out
+
+    # -- real code ---------------------------------------------------------------------------
+    def _endpoint(self):
+        from harness import sctp_sim as sim
+        sim.Clock.ticks = 1024000
+        return sim.Endpoint("B", "controlled", 7, 9)
+
+    def _real_decode(self, data: bytes):
+        ep = self._endpoint()
+        got = []
+        ep.t.on("datachannel", got.append)
+        try:
+            ep._drive(ep.t._data_channel_receive(4, 50, data))
+        except Exception as exc:  # noqa
+            return "crash " + type(exc).__name__
+        ch = ep.t._data_channels.get(4)
+        if ch is None:
+            return "none"
+        if len(got) != 1 or got[0] is not ch or ch.id != 4 or ch.negotiated or ch.readyState != "open":
+            return f"ok-but-not-announced-once events={len(got)} id={ch.id} ready={ch.readyState}"
+        opt = lambda v: "-" if v is None else str(v)
+        hx = lambda s: s.encode("utf8").hex() or "-"
+        return f"ok {hx(ch.label)} {hx(ch.protocol)} {1 if ch.ordered else 0} {opt(ch.maxRetransmits)} {opt(ch.maxPacketLifeTime)}"
+
+    def _real_encode(self, case):
+        from aiortc.rtcdatachannel import RTCDataChannel, RTCDataChannelParameters
+        ep = self._endpoint()
+        try:
+            RTCDataChannel(ep.t, RTCDataChannelParameters(label=case["label"], protocol=case["protocol"], ordered=case["ordered"],
+                                                          maxRetransmits=case["rtx"], maxPacketLifeTime=case["life"]))
+        except struct.error:
+            return "crash struct.error"
+        except Exception as exc:  # noqa
+            return "crash " + type(exc).__name__
+        return "ok " + (ep.t._data_channel_queue[-1][2].hex() or "-")
+
+    def impl(self, case):
+        if case["k"] == "cp":
+            return chr(case["n"]).encode("utf8").hex()
+        if case["k"] == "utf8":
+            try:
+                bytes.fromhex(case["d"]).decode("utf8")
+                return "1"
+            except UnicodeDecodeError:
+                return "0"
+        if case["k"] == "decode":
+            return self._real_decode(bytes.fromhex(case["d"]))
+        return self._real_encode(case)
+
+    def model_line(self, case):
+        hx = lambda s: s.encode("utf8").hex() or "-"
+        opt = lambda v: "-" if v is None else str(v)
+        if case["k"] == "cp":
+            return f"dcep cp {case['n']}"
+        if case["k"] in ("utf8", "decode"):
+            return f"dcep {case['k']} {case['d'] or '-'}"
+        return f"dcep encode {hx(case['label'])} {hx(case['protocol'])} {1 if case['ordered'] else 0} {opt(case['rtx'])} {opt(case['life'])}"
+
+    def oracle(self, case, impl_out):
+        """the property on the real code: what is opened with (label, protocol, ordered, reliability) is announced with the same."""
+        if case["k"] != "encode" or not impl_out.startswith("ok "):
+            return None
+        if case["rtx"] is not None and case["life"] is not None:
+            return None
+        got = self._real_decode(bytes.fromhex(impl_out[3:]))
+        hx = lambda s: s.encode("utf8").hex() or "-"
+        opt = lambda v: "-" if v is None else str(v)
+        want = f"ok {hx(case['label'])} {hx(case['protocol'])} {1 if case['ordered'] else 0} {opt(case['rtx'])} {opt(case['life'])}"
+        if got != want:
+            return f"channel opened as [{want}] is announced to the peer as [{got}]"
+        return None
+
+    def label(self, case, impl_out):
+        return case["k"] + ":" + impl_out.split(" ")[0]
+
+    def nontrivial(self, case, impl_out):
+        return True
+
+    def shrink(self, case):
+        if case["k"] in ("utf8", "decode"):
+            d = bytes.fromhex(case["d"])
+            for i in range(len(d)):
+                yield dict(case, d=(d[:i] + d[i + 1:]).hex())
 
 
 def components(tier):
-    return [World()]
+    return [World(), Dcep()]
+
+
+_ZOMBIE = re.compile(r"channel id=(\d+) is closed at ([AB]) but still (open|closing) at ([AB]) after the network healed$")
+
+
+def _open_delivered_after_close(case, cid, closer, zombie_side):
+    """True if, in the run of `case`, the channel object with id `cid` on `zombie_side` was created by a DATA_CHANNEL_OPEN that
+    was delivered only after the opener (`closer`) had already called close() on its end."""
+    w = W.World(case)
+    order = {"n": 0}
+    orig = w._after
+
+    def after(name, inp, exc):
+        orig(name, inp, exc)
+        order["n"] += 1
+        w.trace[name][-1]["g"] = order["n"]
+
+    w._after = after
+    w.run()
+    w.heal(6000)
+    g_announced = None
+    for st in w.trace[zombie_side]:
+        if any(ev[0] == "chan" and ev[2] == cid for ev in st["events"]):
+            g_announced = st["g"]
+            break
+    g_closed = None
+    for st in w.trace[closer]:
+        if any(c[0] == cid and c[1] in ("closing", "closed") for c in st["public"]["channels"]):
+            g_closed = st["g"]
+            break
+    return g_announced is not None and g_closed is not None and g_closed < g_announced
 
 
 def classify_finding(finding, comp_name, case, what):
     if finding.get("id") == "C13-negotiated-close-before-established":
         return what.endswith("[negotiated channel closed before the association was established]")
+    if finding.get("id") == "C13-open-delivered-after-close":
+        m = _ZOMBIE.search(what)
+        if not m or comp_name != "world":
+            return False
+        return _open_delivered_after_close(case, int(m.group(1)), m.group(2), m.group(4))
     return False
